@@ -69,11 +69,41 @@ def _attrs(cls):
         yield k, v
 
 
+# module-level containers that legitimately change while documents are processed and cannot influence a later document
+_MODULE_GLOBALS_IGNORED = {
+    ('plasTeX.Logging', 'loggers'),         # registry of logger objects by name
+}
+
+
+def _module_containers():
+    """(module name, global name, object) for every dict / list / set bound at module level in a plasTeX module"""
+    import sys
+    out = []
+    for mname, mod in sorted(sys.modules.items()):
+        if mod is None or not (mname == 'plasTeX' or mname.startswith('plasTeX.')):
+            continue
+        for k, v in list(vars(mod).items()):
+            if k.startswith('__') or (mname, k) in _MODULE_GLOBALS_IGNORED:
+                continue
+            if isinstance(v, (dict, list, set)):
+                out.append((mname, k, v))
+    return out
+
+
+def _frozen(v):
+    try:
+        return repr(sorted(v.items(), key=repr) if isinstance(v, dict) else sorted(v, key=repr) if isinstance(v, set) else v)
+    except Exception:
+        return '<%s of %d>' % (type(v).__name__, len(v))
+
+
 class Snapshot(object):
     def __init__(self, module_level_only=True):
         self.items = []     # (cls, name, value, saved_copy_or_None)
         self.names = {}     # cls -> set of attribute names
         self.lens = {}      # cls -> len(vars(cls)) when last found clean (fast path)
+        # module-level dictionaries / lists / sets of the plasTeX modules loaded now (compared by C17 only)
+        self.modglobals = [(m, k, v, _frozen(v), _copyval(v)) for m, k, v in _module_containers()]
         for cls in _classes():
             if module_level_only:
                 import sys
@@ -121,6 +151,27 @@ class Snapshot(object):
                         pass
             lens[cls] = len(cls.__dict__)
         return n
+
+    def diff_modules(self):
+        """(module, global name, pristine repr, current repr) of module-level containers whose content changed"""
+        out = []
+        for m, k, v, frozen, saved in self.modglobals:
+            cur = _frozen(v)
+            if cur != frozen:
+                out.append((m, k, frozen[:80], cur[:80]))
+        return out
+
+    def restore_modules(self):
+        for m, k, v, frozen, saved in self.modglobals:
+            if _frozen(v) != frozen:
+                try:
+                    if isinstance(v, list):
+                        v[:] = copy.copy(saved)
+                    else:
+                        v.clear()
+                        v.update(copy.copy(saved))
+                except Exception:
+                    pass
 
     def diff(self):
         """List of (class qualified name, attribute, pristine repr, current repr) that differ now."""
